@@ -78,9 +78,11 @@ AddSym(ms, k) ==
     ELSE [ms EXCEPT ![Len(ms)] = [ranges |-> Append(@.ranges, [n |-> N(k), slot |-> s.slot]), nt |-> @.nt + N(k)]]
 Shapes == FoldLeft(AddSym, <<>>, [k \in DOMAIN arr |-> k])
 MeshNames == <<"a", "b b", "c", "d">>
-Meshes ==
+\* a single mesh is generated twice: unnamed (the harness calls obj.Save / WriteMaterialsFromMesh) and
+\* named "solo" (obj.SaveAll with one entry)
+Meshes(solo) ==
     LET sh == Shapes IN
-    [i \in DOMAIN sh |-> [name |-> IF Len(sh) = 1 THEN (IF Len(arr) % 2 = 0 THEN "solo" ELSE "") ELSE MeshNames[i],
+    [i \in DOMAIN sh |-> [name |-> IF Len(sh) = 1 THEN (IF solo THEN "solo" ELSE "") ELSE MeshNames[i],
                           ranges |-> sh[i].ranges, nt |-> sh[i].nt]]
 
 \* the flattened ranges as the harness will project them (identity = slot)
@@ -119,13 +121,14 @@ MinPal == CHOOSE p \in Pals : \A q \in Pals : p <= q
 EmitPaths == arr # <<>> \/ pal # MinPal \/ PrintT(ToJson([paths |-> Paths]))
 
 (* ---------------- generator output ------------------------------------ *)
-Case(tag) == [k |-> "mw", tag |-> tag, enc |-> "lat", q |-> Q, pal |-> pal,
-              slots |-> Palettes[pal], meshes |-> Meshes]
-Emit == arr = <<>> \/ PrintT(ToJson(Case("bfs")))
-EmitLeaf == Len(arr) < Depth \/ PrintT(ToJson(Case("sim")))
+Case(tag, solo) == [k |-> "mw", tag |-> tag, enc |-> "lat", q |-> Q, pal |-> pal, arr |-> arr,
+                    slots |-> Palettes[pal], meshes |-> Meshes(solo)]
+Both(tag) == PrintT(ToJson(Case(tag, FALSE))) /\ (Len(Shapes) # 1 \/ PrintT(ToJson(Case(tag, TRUE))))
+Emit == arr = <<>> \/ Both("bfs")
+EmitLeaf == Len(arr) < Depth \/ Both("sim")
 RiskyEmit ==
     \/ arr = <<>>
     \/ (WriterBad(Srcs, "pinned") = {} /\ PipelineBad(Srcs, "pinned") = {})
-    \/ PrintT(ToJson([risky |-> [pal |-> pal, meshes |-> Meshes],
+    \/ PrintT(ToJson([risky |-> [pal |-> pal, arr |-> arr],
                       writer |-> WriterBad(Srcs, "pinned"), reader |-> PipelineBad(Srcs, "pinned")]))
 =============================================================================
